@@ -327,6 +327,20 @@ func runC10(c *core.Ctx, o Options) {
 					}
 				}
 			}
+			// … against the expected number as it stood when the Logon arrived: the handler does not set or reset a counter before
+			// the comparison (an incoming counter pre-set to the Logon's own number makes the comparison vacuous)
+			early := ""
+			for _, t := range s.tr.Traces(lf, m.AllStates) {
+				for _, e := range t.Events {
+					if e.Kind == "enter" && e.Name == "processIncSeq" {
+						break
+					}
+					if e.Kind == "store" && (e.Name == "SetSeqNum" || e.Name == "ResetSeqNum") {
+						early = e.Name + " before the gap check on path: " + traceStr(t)
+					}
+				}
+			}
+			c.Check(early == "", "Y6", "inbound:Logon", "no counter is set or reset before the gap check", lf.Pos(), "none", early+": the expected number the Logon's MsgSeqNum is compared with is no longer the one the store held when the Logon arrived")
 			c.Check(wrong == "" && nCall > 0, "Y6", "inbound:Logon", "the gap check is made on the received Logon", lf.Pos(), "processIncSeq(<the decoded message>)", "processIncSeq is handed "+wrong+", not the Logon that was decoded from the peer's bytes: the number compared with the expected one is not the peer's, so a gap is never (or always) seen")
 
 		}
@@ -427,9 +441,18 @@ func runC10(c *core.Ctx, o Options) {
 	} else {
 		c.Ob("Y9", "start", "all-types incoming handler restores the logged-on state", 0).Fail("no all-types incoming handler is registered when the timers start: in WaitingTestReqAnswer a ResendRequest would be rejected instead of served")
 	}
+	// ---- Y7 (premise) the bytes of the first transmission are those of the object the store keeps: the message is serialized after
+	// the outgoing handlers (the saving one included) have run, and what is enqueued is that serialization
+	checkSendPathOrder(c, "Y7")
+	// ---- Y10 (premises) the saving and the tracking hooks stay registered (a Remove never drops a non-empty handler list), and no
+	// function returns with a mutex it took still locked (the store's mutex is taken by every Save and every Messages)
+	checkPoolGrowOnly(c, "Y10")
+	checkLocksReleased(c, "Y10", libFuncs(c), "the next Save or Messages call — the next send or the next ResendRequest — blocks for ever")
+	c.Explanation += " Y7 premise (= C19.H1): DefaultHandler.send serializes after both handler ranges and enqueues that serialization. Y10 premises: registered handlers stay registered at their position (only an empty handler list is deleted); no function of the library returns with a mutex it took still locked."
 	c.Explanation += " Y6 also requires that processIncSeq is handed the very message the Logon handler decoded from the peer's bytes (not a Logon of the session's own making, whose number is not the peer's)."
 	c.Explanation += " Y4 also: nothing deletes from or replaces Storage.messages and the only update is messages[msgSeqNum] = msg in Save. Y6 also: a path of the tracking handler that returns without looking at the message is one only WaitingLogon/WaitingLogonAnswer can take."
-	c.RuleMin = map[string]int{"Y1": 1, "Y2": 3, "Y3": 1, "Y4": 4, "Y5": 1, "Y6": 4, "Y7": 3, "Y8": 3, "Y9": 1}
+	c.Explanation += " Y6 also: the Logon handler sets or resets no counter before the gap check."
+	c.RuleMin = map[string]int{"Y1": 1, "Y2": 3, "Y3": 1, "Y4": 4, "Y5": 1, "Y6": 5, "Y7": 3, "Y8": 3, "Y9": 1, "Y10": 18}
 	c.MinObl = 8
 }
 
